@@ -35,3 +35,7 @@ pub assume_specification<T, F: FnMut(&T, &T) -> core::cmp::Ordering>[ <[T]>::sor
 pub fn vx_take<T>(v: Vec<T>, n: usize) -> (r: Vec<T>)
     ensures r@ == v@.take(if n <= v@.len() { n as int } else { v@.len() as int })
 { unimplemented!() }
+
+// <[T]>::reverse
+pub assume_specification<T>[ <[T]>::reverse ](v: &mut [T])
+    ensures final(v)@ == old(v)@.reverse();
